@@ -33,6 +33,10 @@ class Sim:
 
 def gen_seq_case(rng, cid, nops):
     lines = [f"case seq{cid}"]
+    # the Deleter of the case's handle types: default / logging custom deleter / CountingPtrNoDelete over arena objects
+    mode = rng.choice(["default", "default", "counting", "counting", "nodelete", None])
+    if mode:
+        lines.append(f"mode {mode}")
     S = Sim()
     for _ in range(nops):
         ex, mi = S.existing(), S.missing()
@@ -160,8 +164,14 @@ class C12(flow.Spec):
     def __init__(self):
         self.tsan = {}
 
+    def compare(self, op, impl, model):
+        if impl == model:
+            return True
+        # harness-only op: the model has no fresh-object phase (see notes)
+        return op.startswith("rawrace") and model == "n/a" and " ; destroyed=" in impl
+
     def viol_class(self, message):
-        m = re.split(r" after | in conc| in stress| at the end", message)[0]
+        m = re.split(r" after | in conc| in stress| in rawrace| at the end", message)[0]
         return re.sub(r"[0-9]+", "N", m)[:90]
 
     # TSan stage (thorough tier): real threads and scheduled runs under ThreadSanitizer
@@ -223,6 +233,13 @@ class C12(flow.Spec):
                 fam.append(f"conc {p} {','.join(str((code // 3 ** j) % 3) for j in range(ln3))}")
         for i, ch in enumerate([fam[j:j + 64] for j in range(0, len(fam), 64)]):
             cs.append([f"case concu{i}"] + ch)
+        # construction from the raw pointer of a fresh object by 2 / 3 threads: every schedule prefix
+        rr = ["case rawrace"]
+        for code in range(2 ** 6):
+            rr.append(f"rawrace 2 {','.join(str((code >> j) & 1) for j in range(6))}")
+        for code in range(3 ** (4 if quick else 6)):
+            rr.append(f"rawrace 3 {','.join(str((code // 3 ** j) % 3) for j in range(4 if quick else 6))}")
+        cs.append(rr)
         st = ["case stress"]
         for i in range(3 if quick else 12):
             st.append(f"stress {rng.choice([2, 3, 3])} {5000 if quick else 40000} {rng.randrange(1 << 30)}")
@@ -232,7 +249,7 @@ class C12(flow.Spec):
     def nontrivial(self, case, answers):
         if len(case) < 2:
             return None
-        if case[1].startswith(("conc", "stress")):
+        if case[1].startswith(("conc", "stress", "rawrace")):
             ok = False
             for op, a in zip(case[1:], answers[1:]):
                 ev = a.split(" ; ")[0].split()
@@ -244,7 +261,7 @@ class C12(flow.Spec):
         prev_h, prev_no = ["-"] * NH, 0
         for op, a in zip(case[1:], answers[1:]):
             parts = a.split(" ; ")
-            if len(parts) != 3:
+            if len(parts) != 4:
                 continue
             hs = parts[1][3:-1].split(",")
             objs = [x for x in parts[2][3:-1].split(",") if x]
